@@ -304,6 +304,50 @@ pub fn disturbance_pass<T: Sync>(
     to_case: &dyn Fn(&T) -> (String, Value, String),
 ) -> PResult {
     if let Some(code) = run.cold {
+        if code >= 1000 {
+            // single-threaded cold start on the first stress pass: item `start` first, then every item
+            // ascending, then descending
+            if run.pass_counter != 0 {
+                run.pass_counter += 1;
+                return Ok(());
+            }
+            let len = items.len();
+            let r = code - 1000;
+            // spread of starting items: ends, middle, and around every power of two
+            let mut starts: Vec<usize> = vec![0, len - 1, len / 2, 1, len / 3, 2 * len / 3];
+            let mut p = 2usize;
+            while p < len {
+                starts.extend([p, p + 1, p - 1]);
+                p *= 2;
+            }
+            starts.retain(|x| *x < len);
+            let start = starts[r % starts.len()];
+            let descending_first = r >= starts.len();
+            let order: Vec<usize> = if descending_first { (0..len).rev().chain(0..len).collect() } else { (0..len).chain((0..len).rev()).collect() };
+            let mut fail: Option<(usize, String)> = None;
+            for i in std::iter::once(start).chain(order.into_iter()) {
+                match guard(|| check(&items[i])) {
+                    Ok(Ok(())) => {}
+                    Ok(Err(m)) => {
+                        fail = Some((i, m));
+                        break;
+                    }
+                    Err(p) => {
+                        fail = Some((i, format!("panicked: {}", p)));
+                        break;
+                    }
+                }
+            }
+            match fail {
+                None => println!("COLDRESULT ok"),
+                Some((i, m)) => {
+                    let (clause, case, sig) = to_case(&items[i]);
+                    let (_, first_case, first_sig) = to_case(&items[start]);
+                    println!("COLDRESULT fail {}", serde_json::to_string(&json!({"clause": clause, "case": case, "sig": format!("first call {} ; {}", first_sig, sig), "first_call": first_case, "message": format!("single-threaded, the first call of the process was on {}: {}", first_sig, m)})).unwrap());
+                }
+            }
+            std::process::exit(0);
+        }
         let (k, rep) = (code % 16, code / 16);
         if run.pass_counter != k {
             run.pass_counter += 1;
@@ -481,5 +525,11 @@ pub fn disturbance_pass<T: Sync>(
 pub fn replay_after_disturbance(case: &Value, check_case: fn(&str, &Value) -> Result<(), String>) -> Result<(), String> {
     // also used for `<ID>.concurrent` cases (no disturbance recorded: the single-thread check of the item)
     run_disturbance(case["disturbance"].as_str().unwrap_or(""));
+    if let Some(fc) = case.get("first_call") {
+        if !fc.is_null() {
+            // single-threaded cold-start case: the recorded first call comes first (a replay process is fresh)
+            let _ = check_case(case["clause"].as_str().unwrap_or(""), fc);
+        }
+    }
     check_case(case["clause"].as_str().unwrap_or(""), &case["case"])
 }
